@@ -783,8 +783,10 @@ impl Hist {
 			_ => (None, Some(Uuid::from_bytes([9u8; 16]))),
 		};
 		let snum = slate.map(|u| self.slate_nums.get(&u).cloned().unwrap_or(999_999));
-		if self.p.chance(1, 2) && self.s.node.height() < 100 {
-			// the owner API call: update_wallet_state first, then the cancel proper
+		if self.p.chance(1, 2) && self.s.node.height() < 100 && self.update_state(i) {
+			// the owner API call: update_wallet_state first, then the cancel proper. (The state was
+			// brought up to date by the separate update just recorded, so an error of this call is
+			// the cancel's own refusal and not one of the update part's.)
 			self.learn(i);
 			let tip = self.s.node.height();
 			let view = self.node_view(i);
@@ -1149,7 +1151,8 @@ impl Hist {
 
 	/// owner::update_wallet_state (refresh + kernel lookups + incremental scan + TTL expiry);
 	/// not followed by the model (scan is outside it): used for the C17 expiry oracle only.
-	fn update_state(&mut self, i: usize) {
+	/// returns whether it succeeded
+	fn update_state(&mut self, i: usize) -> bool {
 		let tip = self.s.node.height();
 		self.learn(i);
 		let view = self.node_view(i);
@@ -1166,12 +1169,14 @@ impl Hist {
 		let unreserved = self.unreserved_spend[i];
 		// the model follows it when it succeeded and the chain is shorter than the scan's look-back
 		let nomodel = rc != vec![0] || tip >= 100;
+		let ok = rc == vec![0];
 		self.record(
 			i,
 			json!({"k": "update_state", "tip": tip, "parent": parent, "view": view, "chain": chain}),
 			rc,
 			json!({"nomodel": nomodel, "unreserved_spend": unreserved}),
 		);
+		ok
 	}
 
 	fn step(&mut self) {
